@@ -225,6 +225,7 @@ def runWith (kv : KV) (extra : Bool × List String × String) : String :=
   let promptOk := !zeroLatency || unblockPrompt allRecs (unblockTimes labels 0)
   let c17 := tokensOk && upperOk && tryOk && promptOk && exactlyOnce && quiet
   let tags := [
+    "tmax:" ++ b01 (decide (1 < ((get kv "cons").splitOn "to18446744073709551615").length)),
     "ptimer:" ++ get kv "ptimer", "preempt:" ++ b01 (decide (0 < toNatD (get kv "preempt"))),
     "unblock:" ++ b01 (decide (0 < nUnblock)),
     "timed:" ++ b01 (allRecs.any (fun r => (timeoutOf r.call).isSome)),
